@@ -110,6 +110,21 @@ func (s Spec) Bytes() []byte {
 		for len(out) < n {
 			out = append(out, byte(syms[r.Intn(p)]))
 		}
+	case "align":
+		// A repeat of L bytes placed at a chosen offset relative to the ring buffer, whose two
+		// occurrences are followed by different bytes: Size = offset of the first occurrence,
+		// P = L + 256*variant (which bytes follow). The compressor must find a match of exactly L.
+		l, variant := s.P&0xff, s.P>>8
+		tails := [][2]byte{{0xEE, 0x00}, {0x00, 0xEE}, {0xEE, ' '}, {' ', 0xEE}}[variant%4]
+		a := vrt.Bytes(r, l)
+		out = append(out, vrt.Bytes(r, n)...)
+		out = append(out, a...)
+		out = append(out, tails[0])
+		out = append(out, vrt.Bytes(r, 100)...)
+		out = append(out, a...)
+		out = append(out, tails[1])
+		out = append(out, vrt.Bytes(r, 7)...)
+		return out
 	case "lowent": // P symbols with a geometric distribution
 		p := max(s.P, 2)
 		syms := vrt.Bytes(r, p)
@@ -322,6 +337,25 @@ func RebuildSpecs(seed int64, n int) []Spec {
 		out[i] = Spec{Fam: "alpha", Size: 50000 + r.Intn(90000), P: vrt.Pick(r, []int{3, 4, 6, 8, 12, 16, 16, 16, 24, 32, 64, 128, 256}), Seed: r.Int63()}
 		if out[i].P <= 6 {
 			out[i].Size *= 3 // long matches: more bytes per symbol
+		}
+	}
+	return out
+}
+
+// AlignSpecs sweeps a long repeat over every alignment relative to the 2048-byte ring buffer (and
+// its mirrored first 59 bytes): first-occurrence offsets 0..2047+130, repeat lengths 59 (one short of
+// the look-ahead: the 60th byte decides) always, 3 and 60 for every seventh offset (all when full).
+func AlignSpecs(full bool) []Spec {
+	var out []Spec
+	for off := 0; off < 2048+130; off++ {
+		for v := 0; v < 4; v++ {
+			if full || v < 2 || off%3 == 0 {
+				out = append(out, Spec{Fam: "align", Size: off, P: 59 + 256*v, Seed: int64(off)})
+			}
+		}
+		if full || off%7 == 0 {
+			out = append(out, Spec{Fam: "align", Size: off, P: 3 + 256*(off%4), Seed: int64(off)}, Spec{Fam: "align", Size: off, P: 60 + 256*(off%4), Seed: int64(off)},
+				Spec{Fam: "align", Size: off, P: 58 + 256*(off%4), Seed: int64(off)})
 		}
 	}
 	return out
